@@ -2,6 +2,38 @@
 From LD Require Import Base F32 Data Semver Model Ops Bucket Eval.
 Open Scope Z_scope.
 
+(* the part of segmentContainsContext before the rules (big-segment look-up or include/exclude lists) *)
+Definition seg_early (P : bsprov) (c : ctx) (sg : segment) : M (option bool) :=
+  if sg_unbounded sg then
+    match sg_generation sg with
+    | None => emit (GUnbounded (sg_key sg) false false) ;;; set_status NotConfigured ;;; ret (Some false)
+    | Some g =>
+      match ctx_key_by_kind c (sg_unb_kind sg) with
+      | None => emit (GUnbounded (sg_key sg) true false) ;;; ret (Some false)
+      | Some k =>
+        emit (GUnbounded (sg_key sg) true true) ;;;
+        m <- membership_for P k ;;
+        match m with
+        | None => ret None
+        | Some mem =>
+          emit (OBsCheck k (big_segment_ref sg g)) ;;;
+          ret (assoc (big_segment_ref sg g) mem)
+        end
+      end
+    end
+  else ret (regular_lists c sg).
+
+Lemma seg_contains_unfold re_ok re_match o E P c n chain sg :
+  seg_contains re_ok re_match o E P c (S n) chain sg =
+  if mem_str (sg_key sg) chain then ret (Err (ECircSeg (sg_key sg)))
+  else early <- seg_early P c sg ;;
+       match early with
+       | Some b => ret (Ok b)
+       | None => seg_rules (seg_rule_match re_ok re_match o E c (seg_contains re_ok re_match o E P c n (chain ++ [sg_key sg])) sg)
+                           (sg_key sg) (sg_rules sg)
+       end.
+Proof. reflexivity. Qed.
+
 Section Facts.
 Variable re_ok : str -> bool.
 Variable re_match : str -> str -> bool.
